@@ -1012,7 +1012,12 @@ func (x *X) fireSiteAsserts(fr *frame, in ssa.Instruction) {
 		fmt.Fprintf(os.Stderr, "site %T %d: %s\n", in, x.prog.Fset.Position(pos).Line, strings.TrimSpace(line))
 	}
 	for i, sa := range x.siteAsserts {
-		if !strings.Contains(line, sa.At) {
+		if strings.HasPrefix(sa.At, "=") {
+			// "=text": the whole statement line (without indentation) is the text
+			if strings.TrimSpace(line) != sa.At[1:] {
+				continue
+			}
+		} else if !strings.Contains(line, sa.At) {
 			continue
 		}
 		key := fmt.Sprintf("%d|%d", i, x.prog.Fset.Position(pos).Line)
